@@ -76,6 +76,26 @@ def seeds():
     return "\n".join(out)
 
 
+def coverage():
+    import subprocess, collections
+    subprocess.run(["python3", "tools/coverage_report.py"], stdout=subprocess.DEVNULL, check=True)
+    fs = json.load(open("coverage/functions.json"))
+    per = collections.OrderedDict()
+    for f in fs:
+        d = per.setdefault(f["file"], collections.Counter())
+        d[f["how"]] += 1
+        d[f["how"] + "_lines"] += f["lines"]
+    out = ["| file | functions | regenerated as Lean definitions | read by a fact extractor | correspondence only / not reached | lines (regenerated / facts / other) |", "|---|---|---|---|---|---|"]
+    tot = collections.Counter()
+    for f, d in per.items():
+        n = d["translated"] + d["facts"] + d["none"]
+        out.append(f"| {f} | {n} | {d['translated']} | {d['facts']} | {d['none']} | {d['translated_lines']} / {d['facts_lines']} / {d['none_lines']} |")
+        tot.update(d)
+    n = tot["translated"] + tot["facts"] + tot["none"]
+    out.append(f"| **total** | {n} | {tot['translated']} | {tot['facts']} | {tot['none']} | {tot['translated_lines']} / {tot['facts_lines']} / {tot['none_lines']} |")
+    return "\n".join(out)
+
+
 def splice(text, tag, body):
     b, e = f"<!-- BEGIN GENERATED: {tag} -->", f"<!-- END GENERATED: {tag} -->"
     if b not in text:
@@ -89,5 +109,7 @@ t = open("DESIGN.md").read()
 t = splice(t, "as-built", as_built())
 t = splice(t, "findings", findings())
 t = splice(t, "seeds", seeds())
+if "<!-- BEGIN GENERATED: coverage -->" in t:
+    t = splice(t, "coverage", coverage())
 open("DESIGN.md", "w").write(t)
 print("DESIGN.md tables regenerated")
